@@ -108,7 +108,14 @@ def calls_in(node_or_nodes):
 
 def func_calls(fnode):
     """Call nodes of a function body (nested defs excluded), each once."""
-    return [n for n in walk_function(fnode) if isinstance(n, ast.Call)]
+    c = getattr(fnode, '_calls_cache', None)
+    if c is None:
+        c = [n for n in walk_function(fnode) if isinstance(n, ast.Call)]
+        try:
+            fnode._calls_cache = c
+        except AttributeError:
+            pass
+    return c
 
 
 def call_name(call):
